@@ -2,16 +2,9 @@
    machine reaches is turned into the decoder configuration of Mxj.Model.Decode. -/
 import Driver.OpsOpt
 import Driver.OpsXml
+import Mxj.Model.OptCfg
 namespace Mxj.Drv
 open Mxj Mxj.Proto Mxj.Opt
-
-/-- the decoder configuration a package state stands for (`cast` is the decoder's argument) -/
-def cfgOfState (st : St) (cast : Bool) : DecCfg :=
-  { attrPrefix := st.attrPrefix, lowerCase := st.lowerCase, snake := st.snakeCaseKeys,
-    asMap := st.decodeSimpleValuesAsMap, seqNum := st.includeTagSeqNum,
-    keepSpace := st.disableTrimWhiteSpace, textK := st.textK, escDec := st.xmlEscapeCharsDecoder,
-    cast := { r := cast, toInt := st.castToInt, toFloat := st.castToFloat, toBool := st.castToBool,
-              nanInf := st.castNanInf, skipSet := false, skip := [] } }
 
 /-- `optdoc calls cast strconv tokens fin doc` → what `NewMapXml(doc, cast)` returns after the calls -/
 def opOptDoc : P Out := do
